@@ -1,6 +1,7 @@
 package rules
 
 import (
+	"go/token"
 	"go/types"
 	"strings"
 
@@ -16,12 +17,13 @@ func init() { Registry["C20"] = checkC20 }
 // segmented deques (node boundaries, growth, shrink, restructure) is NOT
 // decided - it needs an inductive invariant, i.e. a proof or an exploration.
 func checkC20(p *core.Prog, r *core.Report) {
-	r.Explanation = "Decides six structural necessary conditions of queue refinement and nothing else: (R1) the per-key wait queue and holder queue serve their inline slice before their overflow structure (ring / scale queue), so a new element may be appended to the inline slice only on a path where the overflow structure is absent or was tested empty - otherwise a newer element is served before older ones; (R2) Pop and PopRight of the three segmented deques (LockQueue, LockCommandQueue, LockManagerQueue) clear the slot they vacate, because Restructuring re-pushes every non-nil slot (a stale slot resurrects a removed element); (R3) Push of the three deques stores at the tail cursor before advancing it and allocates the next node when the cursor reaches the node size; (R4) every read of an element in Pop / PopRight / Head / Tail of the three deques is on the non-empty side of an emptiness test; (R5) in the slice-and-cursor queues (ring queue, inline part of the wait and holder queues) every path that re-bases the slice also resets the cursor; (R6) the wait queue's overflow field and its mode sentinel (fastIndex < 0 = priority ring) change together. NOT decided (the bulk of the property): the (node, index) cursor arithmetic across node boundaries, Len, growth / shrink / Resize / Rellac / Restructuring / Reset, iteration, the priority ring's order, stability of the priority queue, holes left by in-place removal. A wrong index computation inside those operations is not seen."
+	r.Explanation = "Decides six structural necessary conditions of queue refinement and nothing else: (R1) the per-key wait queue and holder queue serve their inline slice before their overflow structure (ring / scale queue), so a new element may be appended to the inline slice only on a path where the overflow structure is absent or was tested empty - otherwise a newer element is served before older ones; (R2) Pop and PopRight of the three segmented deques (LockQueue, LockCommandQueue, LockManagerQueue) clear the slot they vacate, because Restructuring re-pushes every non-nil slot (a stale slot resurrects a removed element); (R3) Push of the three deques stores at the tail cursor before advancing it and allocates the next node when the cursor reaches the node size; (R4) every read of an element in Pop / PopRight / Head / Tail of the three deques is on the non-empty side of an emptiness test; (R5) in the slice-and-cursor queues (ring queue, inline part of the wait and holder queues) every path that re-bases the slice also resets the cursor; (R6) the wait queue's overflow field and its mode sentinel (fastIndex < 0 = priority ring) change together. (R7) the holder queue's IterNodes puts exactly one entry for the inline part in front of the overflow nodes (the index convention of IterNodeQueues). NOT decided (the bulk of the property): the (node, index) cursor arithmetic across node boundaries, Len, growth / shrink / Resize / Rellac / Restructuring / Reset, iteration, the priority ring's order, stability of the priority queue, holes left by in-place removal. A wrong index computation inside those operations is not seen."
 	r.Assumptions = []string{"Go type checker and go/ssa are correct for /repo"}
 	c20R1(p, r)
 	c20R234(p, r)
 	c20R5(p, r)
 	c20R6(p, r)
+	c20R7(p, r)
 }
 
 func c20R1(p *core.Prog, r *core.Report) {
@@ -482,5 +484,78 @@ func c20R6(p *core.Prog, r *core.Report) {
 	}
 	if n == 0 {
 		r.Fail("C20/R6: no method of LockManagerWaitQueue stores ringQueue")
+	}
+}
+
+// c20R7: the holder queue is iterated as `for i := range q.IterNodes() {
+// q.IterNodeQueues(i) }`. IterNodeQueues hard-wires index 0 to the inline part
+// and index n to node n-1 of the overflow queue, so IterNodes has to hand out
+// exactly one entry for the inline part (the slice, or an empty placeholder)
+// in front of the overflow queue's nodes whenever there is an overflow queue -
+// otherwise the iteration stops one node short and the last live node is never
+// visited (LIST_LOCKED, admin "show lock").
+func c20R7(p *core.Prog, r *core.Report) {
+	const rule = "C20/R7"
+	r.Rule(rule, "LockManagerLockQueue.IterNodes puts exactly one entry for the inline part in front of the overflow queue's nodes (the index convention of IterNodeQueues: 0 = inline part, n = overflow node n-1)", 1)
+	fn := mustFunc(p, r, "server.(*LockManagerLockQueue).IterNodes")
+	byIdx := mustFunc(p, r, "server.(*LockManagerLockQueue).IterNodeQueues")
+	if fn == nil || byIdx == nil {
+		return
+	}
+	// the convention exists only while IterNodeQueues forwards index-1
+	conv := false
+	for _, b := range byIdx.Blocks {
+		for _, ins := range b.Instrs {
+			if c := core.StaticCallee(ins); c != nil && c.Name() == "IterNodeQueues" {
+				for _, a := range core.CallArgs(ins) {
+					if bo, ok := a.(*ssa.BinOp); ok && bo.Op == token.SUB {
+						if k, ok := constIntOf(bo.Y); ok && k == 1 {
+							conv = true
+						}
+					}
+				}
+			}
+		}
+	}
+	key := "server.(*LockManagerLockQueue).IterNodes: one entry for the inline part before the overflow nodes"
+	if !conv {
+		r.Hold(rule, key, p.Pos(byIdx.Pos()), "IterNodeQueues does not shift the index: no placeholder needed")
+		return
+	}
+	n, bad, badTrace := 0, "", []string(nil)
+	ex := core.NewExplorer(p, core.Hooks{
+		Instr: func(x *core.X) {
+			if !x.Top() {
+				return
+			}
+			call, ok := x.Ins.(*ssa.Call)
+			if !ok {
+				return
+			}
+			bi, ok := call.Call.Value.(*ssa.Builtin)
+			if !ok || bi.Name() != "append" || len(call.Call.Args) != 2 {
+				return
+			}
+			if c, ok := call.Call.Args[1].(*ssa.Call); ok && c.Call.StaticCallee() != nil && c.Call.StaticCallee().Name() == "IterNodes" {
+				n++
+				if x.Get("front") != "1" && bad == "" {
+					bad, badTrace = x.Pos(), x.St.Trace
+				}
+				return
+			}
+			x.Set("front", x.Get("front")+"1")
+		},
+	})
+	ex.NoHist = true
+	ex.Run(fn, nil)
+	switch {
+	case ex.Imprecise != "":
+		r.Fail("C20/R7: %s", ex.Imprecise)
+	case n == 0:
+		r.Fail("C20/R7: IterNodes never appends the overflow queue's nodes")
+	case bad != "":
+		r.Violate(rule, key, bad, "on a path the overflow queue's nodes are appended without exactly one entry for the inline part in front: IterNodeQueues(i) reads overflow node i-1, so `for i := range IterNodes()` stops one node short and never visits the last live node (once the inline part is drained while the overflow queue still holds elements)", badTrace)
+	default:
+		r.Hold(rule, key, p.Pos(fn.Pos()), "slice or placeholder on every path")
 	}
 }
